@@ -9,6 +9,8 @@ def steps_for(corpus, tier):
 
 
 RANDOM = {"name": "random", "n": {"quick": 48, "thorough": 600}}
+FAULTS = {"name": "faults", "n": {"quick": 18, "thorough": 18}, "seed0": 0, "seeded": False}
+REWARDS = {"name": "rewards", "n": {"quick": 16, "thorough": 48}, "seed0": 0, "seeded": False}
 SCRIPTED = {"name": "scripted", "n": {"quick": 20, "thorough": 60}, "seed0": 0, "seeded": False}
 
 
@@ -245,6 +247,25 @@ def cls_c14(e):
     return out
 
 
+def cls_c16(e):
+    out = []
+    a = e["a"]
+    if a == "CEndRD" and e["s"].get("bal") is not None:
+        out.append("split_frac_%s" % e["s"].get("fracBp"))
+    if a == "Block" and e["chain"] != "p":
+        n = len([x for x in e["res"].get("sent", []) if x.get("type") == "transfer"])
+        if n:
+            out.append("transmit_%d" % min(n, 2))
+    if a == "Tx:Recv" and e["args"].get("port") == "transfer" and e["chain"] == "p":
+        out.append("reward_recv_%s" % _code(e))
+    if a in ("PAllocateOK", "PAllocateFail"):
+        r = _cons(e, e["args"]["c"])
+        out.append("%s_members_%d" % (a, min(len(r.get("cvs", {})), 3)))
+    if a == "Tx:Fees" and e["res"].get("code") == 0:
+        out.append("fees_%s" % e["args"]["denom"])
+    return out
+
+
 def cls_c17(e):
     out = []
     a = e["a"]
@@ -302,6 +323,13 @@ def cls_c20(e):
 
 
 MC_VSCFLOW = [{"module": "MC_VSCFlow.tla", "cfg": "MC_VSCFlowA.cfg", "timeout": 600}]
+MC_KEYS = [{"module": "MC_Keys.tla", "cfg": "MC_KeysQ.cfg", "timeout": 600},
+           {"module": "MC_Keys.tla", "cfg": "MC_KeysM.cfg", "timeout": 1200, "tier": "thorough"},
+           {"module": "MC_Keys.tla", "cfg": "MC_KeysT.cfg", "timeout": 3000, "tier": "thorough"},
+           {"module": "MC_Keys.tla", "cfg": "MC_KeysT3v.cfg", "timeout": 3000, "tier": "thorough"}]
+MC_LIFE = [{"module": "MC_Lifecycle.tla", "cfg": "MC_LifecycleQ.cfg", "timeout": 900},
+           {"module": "MC_Lifecycle.tla", "cfg": "MC_LifecycleT.cfg", "timeout": 3000, "tier": "thorough"},
+           {"module": "MC_Lifecycle.tla", "cfg": "MC_LifecycleT3.cfg", "timeout": 3000, "tier": "thorough"}]
 MC_ELIG = [{"module": "MC_Shaping.tla", "cfg": "MC_ShapingEligQ.cfg", "timeout": 900},
            {"module": "MC_Shaping.tla", "cfg": "MC_ShapingEligT.cfg", "timeout": 3000, "tier": "thorough"}]
 MC_CAP = [{"module": "MC_Shaping.tla", "cfg": "MC_ShapingCapQ.cfg", "timeout": 900},
@@ -356,11 +384,11 @@ PROPS = {
         "classify": cls_c15, "rule": "provider end-block steps classified by bonded-vs-M and ties; blocks by kind of engine update",
         "required_classes": {"quick": ["bonded_gt_M", "updates_change"]}, "assumptions": [],
     },
-    "C05": {"level": "model_checking", "mc": [], "corpora": [RANDOM, SCRIPTED], "invariants": ["C05_Injective"],
+    "C05": {"level": "model_checking", "mc": MC_KEYS, "corpora": [RANDOM, SCRIPTED], "invariants": ["C05_Injective"],
             "properties": ["C05_Reject", "C05_Create"], "classify": cls_c05,
             "rule": "key-assignment attempts (by outcome and consumer phase), validator creations (by outcome and kind of key) and blocks by number of assigned keys",
             "required_classes": {"quick": ["AssignKey_ok_launched", "AssignKey_rej_launched", "createval_ok_fresh"]}, "assumptions": []},
-    "C06": {"level": "model_checking", "mc": [], "corpora": [RANDOM, SCRIPTED], "invariants": ["C06_Attributable", "C06_PruneListed"],
+    "C06": {"level": "model_checking", "mc": MC_KEYS, "corpora": [RANDOM, SCRIPTED], "invariants": ["C06_Attributable", "C06_PruneListed"],
             "properties": ["C06_Free", "C08_Outcome"], "classify": cls_c06,
             "rule": "end-blocks by number of keys scheduled for pruning, assignments by phase, slash packets by kind of key",
             "required_classes": {"quick": ["assign_on_launched", "prune_entries_1"]}, "assumptions": []},
@@ -372,22 +400,28 @@ PROPS = {
             "properties": ["C08_Outcome", "C09_MeterLeAllowance", "C09_OncePerPeriod", "C09_Standby", "C09_HeadStays", "C09_QueueFifo"], "classify": cls_c09,
             "rule": "as C08 plus provider begin-blocks by meter state and consumer send steps by slash-record state",
             "required_classes": {"quick": ["slash_downtime_handled", "meter_full", "send_waiting"]}, "assumptions": []},
-    "C10": {"level": "model_checking", "mc": [], "corpora": [RANDOM, SCRIPTED], "invariants": ["C10_InitIffSpawn", "C10_QueueExact"],
+    "C10": {"level": "model_checking", "mc": MC_LIFE, "corpora": [RANDOM, SCRIPTED, FAULTS], "invariants": ["C10_InitIffSpawn", "C10_QueueExact"],
             "properties": ["C10_Ids", "C10_PhaseStep", "C10_PhaseCause", "C10_LaunchWhenDue", "C10_LaunchOutcome", "C01_Launch"], "classify": cls_c10,
             "rule": "lifecycle events: creations, updates by phase, launch attempts by outcome, removals",
             "required_classes": {"quick": ["PLaunchOK", "PLaunchFail", "create_ok_spawn", "create_ok_nospawn", "update_initialized_init"]}, "assumptions": []},
-    "C11": {"level": "model_checking", "mc": [], "corpora": [RANDOM, SCRIPTED], "invariants": ["C11_DeletedStaysEmpty"],
+    "C11": {"level": "model_checking", "mc": MC_LIFE, "corpora": [RANDOM, SCRIPTED, FAULTS], "invariants": ["C11_DeletedStaysEmpty"],
             "properties": ["C11_NoUpdates", "C11_Stops", "C11_RemoveWhenDue", "C11_Residue"], "classify": cls_c11,
             "rule": "stops by cause, removals by outcome, blocks with stopped consumers present",
             "required_classes": {"quick": ["PRemoveOK", "stopped_present"]}, "assumptions": []},
-    "C13": {"level": "model_checking", "mc": [], "corpora": [RANDOM, SCRIPTED], "invariants": [],
+    "C13": {"level": "model_checking", "mc": [], "corpora": [RANDOM, SCRIPTED, FAULTS], "invariants": [],
             "properties": ["C13_Frame", "C13_FrameOthers"], "classify": cls_c13,
             "rule": "per-consumer operations executed while at least one other consumer exists, by operation and number of consumers",
             "required_classes": {"quick": ["PQueueVSC_with_2_consumers", "Tx:AssignKey_with_2_consumers"]}, "assumptions": []},
-    "C14": {"level": "model_checking", "mc": [], "corpora": [RANDOM, SCRIPTED], "invariants": ["C14_TopN"],
+    "C14": {"level": "model_checking", "mc": MC_LIFE, "corpora": [RANDOM, SCRIPTED], "invariants": ["C14_TopN"],
             "properties": ["C14_Owner", "C14_Create", "C14_Authority", "C14_Validator", "C14_RejectedUnchanged"], "classify": cls_c14,
             "rule": "provider messages by (type, kind of sender, outcome)",
             "required_classes": {"quick": ["UpdateConsumer_user_rej", "UpdateConsumer_gov_ok", "OptIn_wrongsigner_rej", "UpdateParams_user_rej", "UpdateParams_gov_ok"]}, "assumptions": []},
+    "C16": {"level": "model_checking", "mc": [], "corpora": [REWARDS], "invariants": ["C16_Solvent"],
+            "properties": ["C16_Split", "C16_Transmit", "C16_Credit", "C16_OnlyThere", "C16_Payout", "C19_AllocateRollback"], "classify": cls_c16,
+            "rule": "consumer reward steps by redistribution fraction, blocks by number of reward transfers, reward receipts, allocations by outcome and set size, fee injections by denom",
+            "required_classes": {"quick": ["transmit_1", "reward_recv_ok", "PAllocateOK_members_2", "PAllocateFail_members_2", "fees_photon", "split_frac_7500", "split_frac_0"]},
+            "assumptions": ["amounts below 2^31 (TLC integers); sub-unit Dec dust (at most one base unit per participant and allocation) is not flagged",
+                            "reward denoms are enabled on the consumer through its own governance authority (the provider-made genesis starts with none)"]},
     "C17": {"level": "model_checking", "mc": [], "corpora": [SCRIPTED, RANDOM],
             "invariants": ["C17_ClientInjective", "C17_ChannelInjective", "C17_Attribution"],
             "properties": ["C17_Try", "C17_Confirm", "C17_InitAck", "C17_BindingsOnlyThere", "C17_ConsumerInit", "C17_FirstVSC"], "classify": cls_c17,
@@ -399,11 +433,11 @@ PROPS = {
             "rule": "each history (seeded random or scripted, the generators of the other properties) is executed on 3 independent application instances in one process; one evaluation = one block whose (app hash, FinalizeBlock response digest) is compared across replicas; classes = provider / consumer blocks and history lengths",
             "required_classes": {"quick": ["block_provider", "block_consumer"]},
             "assumptions": ["replicas run in one process (Go randomises map iteration per range statement); no cross-process or cross-architecture comparison"]},
-    "C19": {"level": "fault_enumeration", "mc": [], "corpora": [RANDOM, SCRIPTED], "invariants": ["C19_NoBlockError"],
+    "C19": {"level": "fault_enumeration", "mc": MC_LIFE, "corpora": [RANDOM, SCRIPTED, FAULTS, REWARDS], "invariants": ["C19_NoBlockError"],
             "properties": ["C19_LaunchRollback", "C19_RemoveRollback", "C19_AllocateRollback"], "classify": cls_c19,
             "rule": "blocks of every chain, failing consumer operations and failing transactions, by kind",
             "required_classes": {"quick": ["PLaunchFail", "block_p", "block_c"]}, "assumptions": []},
-    "C20": {"level": "model_checking", "mc": [], "corpora": [RANDOM, SCRIPTED], "invariants": ["C20_OnePending"],
+    "C20": {"level": "model_checking", "mc": MC_LIFE, "corpora": [RANDOM, SCRIPTED], "invariants": ["C20_OnePending"],
             "properties": ["C20_Update", "C20_Apply", "C08_Params"], "classify": cls_c20,
             "rule": "infraction-parameter requests by phase and pending state, begin-blocks by schedule length, punishment steps",
             "required_classes": {"quick": ["infr_update_launched_nopending", "infr_update_registered_nopending"]}, "assumptions": []},
@@ -441,6 +475,8 @@ for _p, _t, _n in [
     MANIFEST_TEXT[_p] = {"text": _GEN + ": " + _t + ".", "note": _n}
 MANIFEST_TEXT["C18"] = {"text": "N-version execution: the specification supplies the histories (random driver and scripted scenarios with ties, many consumers and validators) and a trivial agreement invariant that TLC evaluates on the merged observation trace of 3 replicas; this is exploration, not model checking.",
                         "note": "Same-process replicas; transaction bytes are regenerated deterministically per replica rather than copied.", "technique": "replica execution of generated histories + TLC agreement invariant on the observation trace"}
+MANIFEST_TEXT["C16"] = {"text": "TLC evaluates, on states recorded from real consumer and provider applications connected by real CCV and transfer channels, the exact fee split and transmission on the consumer, crediting of the sending consumer, pool solvency, and per-(consumer, denom) payout (only eligible members, proportional to power, commission rate, nothing beyond dust lost, other consumers untouched), including allocations with injected failures.",
+                        "note": "Integer abstraction of 18-decimal arithmetic with a tolerance of one unit per participant; scripted reward scenario (two consumers sharing the flow, validator-set changes between crediting and payout) rather than the random driver."}
 MANIFEST_TEXT["C17"] = {"text": "TLC evaluates binding invariants (consumer/client/channel one-to-one, channel built on the consumer's client) on every recorded provider state and the acceptance rule of every handshake step; a scripted scenario drives every deviation (ordering, ports, version, foreign client, provider-initiated, racing handshakes, repeated attempts, second consumer on the same connection) with real IBC proofs, forged channel ends standing for a compromised consumer.",
                         "note": "IBC core is executed, not modelled. Launch on a connection whose client is already bound was a defect (F2), fixed by c3beaf4."}
 MANIFEST_TEXT["C19"]["technique"] = "TLC trace validation of every generated history (block errors, rollback frame conditions); fault enumeration via build-tagged failpoints"
